@@ -251,7 +251,7 @@ impl QueryEngine {
         r matches Ok(q) ==> parse_spec(query_str@) == Some(q),           //#answers_as_a_fresh_parse
         r is Err ==> parse_spec(query_str@) is None,                     //#refuses_as_a_fresh_parse
 //@replace "Box<dyn std::error::Error>" => "BoxError" :: dyn Error is outside Verus; the error value is only propagated (opaque stand-in)
-//@replace "query_str.split_whitespace().collect::<Vec<_>>().join(\" \")" => "normalize_unicode_ws(query_str)" :: (older form) iterator/str API without Verus specification; wrapper body is the original expression
+//@replace? "query_str.split_whitespace().collect::<Vec<_>>().join(\" \")" => "normalize_unicode_ws(query_str)" :: (older form) iterator/str API without Verus specification; wrapper body is the original expression
 //@replace "query_str<NL>                .split(" => "split_filter_join(query_str, " :: iterator/str API without Verus specification; wrapper body is the original chain
 //@replace ")<NL>                .filter(" => ", " :: (same chain)
 //@replace ")<NL>                .collect::<Vec<_>>()<NL>                .join(\" \")" => ")" :: (same chain)
